@@ -37,6 +37,11 @@ EXTRA = {
     'C07_G': ['C08'], 'C07_H': ['C13'], 'C08_G': ['C13'], 'C08_H': ['C02'],
     'C11_G': ['C14'], 'C11_H': ['C03', 'C02'], 'C12_G': ['C14'],
     'C13_G': ['C12'], 'C13_H': ['C08'], 'C16_G': ['C07'],
+    'C04_I': ['C17'], 'C04_J': ['C09', 'C17', 'C01'], 'C06_I': ['C13'],
+    'C06_J': ['C04', 'C07'], 'C09_I': ['C04', 'C17'], 'C10_I': ['C13'],
+    'C14_I': ['C15', 'C11'], 'C15_I': ['C07', 'C16'], 'C15_J': ['C16'],
+    'C17_I': ['C09', 'C04'], 'C17_J': ['C04'], 'C18_J': ['C01', 'C09'],
+    'C20_I': ['C09', 'C01'], 'C20_J': ['C17'],
 }
 
 
@@ -49,7 +54,10 @@ def run_check(cid):
     env = dict(os.environ, VERIF_NO_EVIDENCE='1')
     if REPO != '/repo':
         env['VP_RUN_REPO'] = REPO
-    r = sh('./check %s --tier quick' % cid, cwd=VERIF, env=env)
+    # (a change can make a check wait for ever: that is a miss, not a row
+    # that blocks the rest)
+    r = sh('timeout -k 10 1500 ./check %s --tier quick' % cid, cwd=VERIF,
+           env=env)
     sigs = [l.split('sig=')[1].split(' ')[0] for l in r.stdout.splitlines()
             if 'sig=' in l]
     return r.returncode, sigs
